@@ -373,11 +373,17 @@ class Engine:
         t = type(op)
         if type(a).__name__ == "Tok" or type(b).__name__ == "Tok":
             raise ModelRaise("Desync")  # a NUMBER token consumed as a raw byte: reader and writer disagree on framing
+        if a is None or b is None:
+            raise ModelRaise("TypeError", ["unsupported operand type(s): NoneType"], cls=TypeError)
         if not is_sym(a) and not is_sym(b):
             r = self.models.concrete_binop(self, t, a, b)
             if r is not NotImplemented:
                 return r
-            return _BIN[t](a, b)
+            try:
+                return _BIN[t](a, b)
+            except (TypeError, ZeroDivisionError, ValueError, OverflowError) as ex:
+                # what the real interpreter raises for this operation on these concrete operands
+                raise ModelRaise(type(ex).__name__, [str(ex)], cls=type(ex))
         if isinstance(a, (SBytes, Rope, SStr, list, tuple)) or isinstance(b, (SBytes, Rope, SStr, list, tuple)):
             return self.models.concrete_binop(self, t, a, b, strict=True)
         if isinstance(a, float) or isinstance(b, float) or (is_sym(a) and z3.is_real(a)) or (is_sym(b) and z3.is_real(b)):
@@ -497,7 +503,10 @@ class Engine:
             if t is ast.NotIn:
                 r = self.models.contains(self, b, a)
                 return (not r) if isinstance(r, bool) else z3.Not(r)
-            return _CMP[t](a, b)
+            try:
+                return _CMP[t](a, b)
+            except TypeError as ex:
+                raise ModelRaise("TypeError", [str(ex)], cls=TypeError)
         if t in (ast.Is, ast.IsNot):
             if a is None or b is None:
                 return t is ast.IsNot
